@@ -163,6 +163,25 @@ MUTANTS = [
     ('C02', 'invalidate-skips-last-instance', MV,
      "            for instance in self._instances:\n                if instance is not committing_instance:\n                    instance._invalidate(tid, oids)",
      "            for instance in list(self._instances)[:-1]:\n                if instance is not committing_instance:\n                    instance._invalidate(tid, oids)"),
+    ('C03', 'file-store-compares-nothing', FS,
+     "                if oldserial != committed_tid:\n                    data = self.tryToResolveConflict(oid, committed_tid,",
+     "                if False:\n                    data = self.tryToResolveConflict(oid, committed_tid,"),
+    ('C03', 'mapping-store-compares-nothing', MS,
+     "            if serial != old_tid:\n                raise ZODB.POSException.ConflictError(",
+     "            if False:\n                raise ZODB.POSException.ConflictError("),
+    ('C03', 'commit-lock-not-taken', BS,
+     "        self._commit_lock.acquire()\n\n        with self._lock:\n            self._transaction = transaction\n            self._clear_temp()",
+     "        self._commit_lock.acquire(False)\n\n        with self._lock:\n            self._transaction = transaction\n            self._clear_temp()"),
+    ('C03', 'readcurrent-noop', BS,
+     "    committed_tid = self.getTid(oid)\n    if committed_tid != serial:",
+     "    committed_tid = self.getTid(oid)\n    if False:"),
+    # (DemoStorage.store looking at the changes layer only, and dropping
+    # the cache invalidation after a failed readCurrent check, are both
+    # unobservable: a stale serial implies a newer revision in the changes
+    # layer, and the MVCC boundary invalidates the same object anyway)
+    ('C03', 'demo-store-compares-nothing', DS,
+     "        if old != serial:\n            rdata = self.tryToResolveConflict(oid, old, serial, data)",
+     "        if False:\n            rdata = self.tryToResolveConflict(oid, old, serial, data)"),
 ]
 
 
